@@ -38,4 +38,6 @@ json.dump({"property":"$PID","name":"$NAME","suite_failures_outside_demo_with_ch
  "needs":"see SEEDED.md"}, open("$OUT/meta.json","w"), indent=1)
 PY
 echo "check rc=$RC"
+# evidence must describe the unchanged tree
+cd /verif && ./check $PID quick > /dev/null 2>&1
 git -C /repo worktree remove --force $WT
